@@ -11,6 +11,7 @@ CONSTANTS
   Weak_NoWitnessNeeded = FALSE
   Weak_BackwardsUnbound = FALSE
   Weak_ReplacementHashUnchecked = FALSE
+  Weak_PromotedWitnessStays = FALSE
 INIT CaseInit
 NEXT CaseNext
 INVARIANTS VerifierSound AdjacentSound NonAdjacentSound BackwardsSound GenuineAccepted
